@@ -1197,6 +1197,52 @@ theorem fixsignsRef_even {S : Services α} (hS : S.Lawful) (K other : Ktensor α
   exact foldlM_fixsignsRefComp_even hS B A _ List.nodup_range hf r
     (List.mem_range.2 (by rw [rB.ncomp]; exact hr)) hev n (by rw [rA.ndims]; exact hn)
 
+/-! ### the aligned form is optimal among the even sign changes -/
+
+theorem sum_nonneg_of_all (l : List α) (h : ∀ x ∈ l, 0 ≤ x) : 0 ≤ l.sum := by
+  induction l with
+  | nil => simp
+  | cons x l ih =>
+    rw [List.sum_cons]
+    exact add_nonneg (h x (List.mem_cons_self ..)) (ih fun y hy => h y (List.mem_cons_of_mem _ hy))
+
+/-- In an aligned component the sign scores of any even number of distinct modes add up to a
+non-negative number: negating an even set of columns cannot raise the sum of the scores. -/
+theorem Aligned.sum_nonneg {A B : Ktensor α} {r : Nat} (h : Aligned A B r) (F : List Nat) (hnd : F.Nodup)
+    (hF : ∀ n ∈ F, n < A.factors.length) (hev : F.length % 2 = 0) :
+    0 ≤ (F.map (refScore A B r)).sum := by
+  by_cases hneg : ∃ j ∈ F, refScore A B r j < 0
+  · obtain ⟨j, hj, hjneg⟩ := hneg
+    have hperm := List.perm_cons_erase hj
+    rw [(hperm.map (refScore A B r)).sum_eq, List.map_cons, List.sum_cons]
+    have hlen : (F.erase j).length = F.length - 1 := List.length_erase_of_mem hj
+    have hpos : 0 < F.length := List.length_pos_of_mem hj
+    have hother : ∀ x ∈ F.erase j, -(refScore A B r j) ≤ refScore A B r x := by
+      intro x hx
+      have hxF := List.mem_of_mem_erase hx
+      have hxj : x ≠ j := by
+        rintro rfl
+        exact (List.Nodup.not_mem_erase hnd) hx
+      exact h j (hF j hj) hjneg x (hF x hxF) hxj
+    cases hE : F.erase j with
+    | nil => rw [hE] at hlen; simp at hlen; omega
+    | cons m rest =>
+      rw [hE] at hother
+      rw [List.map_cons, List.sum_cons]
+      have h1 := hother m (List.mem_cons_self ..)
+      have h2 : 0 ≤ (rest.map (refScore A B r)).sum := by
+        apply sum_nonneg_of_all
+        intro y hy
+        obtain ⟨x, hx, rfl⟩ := List.mem_map.1 hy
+        have := hother x (List.mem_cons_of_mem _ hx)
+        linarith
+      linarith
+  · apply sum_nonneg_of_all
+    intro y hy
+    obtain ⟨x, hx, rfl⟩ := List.mem_map.1 hy
+    by_contra hc
+    exact hneg ⟨x, hx, not_le.1 hc⟩
+
 end field
 end Ktensor
 end Pyttb
